@@ -167,11 +167,20 @@ func VerifH_C02_history() {
 		}
 	}
 	syncAt := symChoice("sync", n) // 0 = no intermediate refresh, k = after statement k
+	syncMode := 0
+	if syncAt > 0 && symParam("merger", 0) == 1 {
+		syncMode = symChoice("syncmode", 2) // 0 = everybody refreshes, 1 = a third party merges and commits, nobody refreshes
+	}
 	for i := range st {
 		st[i].eff = vExec(w[st[i].writer], st[i])
 		if syncAt == i+1 && i+1 < n {
 			for k := range w {
 				symAssert(w[k].Commit(vCtx) == nil, "commit-ok")
+			}
+			if syncMode == 1 {
+				_, err := vOpen(bkt.client(7), vTableOpts{bf: 2}, 90)
+				symAssert(err == nil, "third-party-merge-ok")
+				continue
 			}
 			for k := range w {
 				nt, err := vOpen(bkt.client(1+k), vTableOpts{bf: 2}, int64(100+k))
@@ -192,6 +201,18 @@ func VerifH_C02_history() {
 	if got.live && want.live {
 		symAssert(symDeepEq(got.b, want.b), "column-b-holds-latest-assignment")
 		symAssert(symDeepEq(got.c, want.c), "column-c-holds-latest-assignment")
+	}
+	// C01: merging adds nothing when nothing new was committed
+	if symParam("quiesce", 0) == 1 {
+		m1, err := vOpen(bkt.client(5), vTableOpts{bf: 2}, 910)
+		symAssert(err == nil, "merging-open-ok")
+		symAssert(vSameVisible(vSee(m1), got), "merging-writer-sees-the-same-row")
+		symAssert(len(bkt.names(vPrefix+"/root/current/")) <= 1, "one-current-version-after-merge")
+		muts := bkt.muts
+		m2, err := vOpen(bkt.client(6), vTableOpts{bf: 2}, 920)
+		symAssert(err == nil, "quiescent-reopen-ok")
+		symAssert(bkt.muts == muts, "quiescent-reopen-writes-nothing")
+		symAssert(vSameVisible(vSee(m2), got), "quiescent-reopen-sees-the-same-row")
 	}
 	symReach("end")
 }
